@@ -630,6 +630,12 @@ impl<W: Write + io::Seek> ZipWriter<W> {
                 "Not writing to extra field",
             )));
         }
+        if self.inner.is_closed() {
+            return Err(ZipError::Io(io::Error::new(
+                io::ErrorKind::BrokenPipe,
+                "ZipWriter was already closed",
+            )));
+        }
         let file = self.files.last_mut().unwrap();
 
         validate_extra_data(file)?;
